@@ -21,6 +21,7 @@ import (
 	"encoding/binary"
 	"encoding/hex"
 	"errors"
+	"hash"
 	"io"
 	"maps"
 	"net/http"
@@ -341,19 +342,31 @@ func (a *remoteAuthorizer) calculateCacheKey(sub *subject.Subject, values map[st
 
 	hash := sha256.New()
 	hash.Write(a.e.Hash())
-	hash.Write(stringx.ToBytes(a.id))
-	hash.Write(stringx.ToBytes(strings.Join(a.headersForUpstream, ",")))
-	hash.Write(stringx.ToBytes(payload))
+	writeDelimited(hash, stringx.ToBytes(a.id))
+	writeDelimited(hash, stringx.ToBytes(strings.Join(a.headersForUpstream, ",")))
+	writeDelimited(hash, stringx.ToBytes(payload))
 	hash.Write(ttlBytes)
 	hash.Write(sub.Hash())
 
 	// in sorted order: the key must not depend on the iteration order of the map
 	for _, k := range slices.Sorted(maps.Keys(values)) {
-		hash.Write(stringx.ToBytes(k))
-		hash.Write(stringx.ToBytes(values[k]))
+		writeDelimited(hash, stringx.ToBytes(k))
+		writeDelimited(hash, stringx.ToBytes(values[k]))
 	}
 
 	return hex.EncodeToString(hash.Sum(nil))
+}
+
+// writeDelimited writes data preceded by its length, so that the components of a digest cannot be
+// shifted across their boundaries.
+func writeDelimited(hash hash.Hash, data []byte) {
+	const int64BytesCount = 8
+
+	size := make([]byte, int64BytesCount)
+	binary.LittleEndian.PutUint64(size, uint64(len(data)))
+
+	hash.Write(size)
+	hash.Write(data)
 }
 
 func (a *remoteAuthorizer) verify(ctx heimdall.Context, result any) error {
